@@ -196,6 +196,13 @@ func (ex *Exec) harnessAPI(fr *frame, name string, args []Value) (Value, bool) {
 		iv := ex.sliceTerms(args[2])
 		data := ex.sliceTerms(args[3])
 		return ex.byteSlice(ex.cbcTerm(enc, key, iv, data)), true
+	case "vSameFields":
+		a, b := args[0].(Iface), args[1].(Iface)
+		skip := ex.concStr(args[2], "vSameFields skip")
+		if a.t == nil || b.t == nil || !types.Identical(a.t, b.t) {
+			return tt.Bool(a.t == nil && b.t == nil), true
+		}
+		return ex.sameFields(a.v, b.v, a.t, skip, 0), true
 	case "vMetric":
 		nm := ex.concStr(args[0], "vMetric name")
 		return tt.BV(64, uint64(int64(ex.metricTotal(nm, nil)))), true
@@ -647,4 +654,56 @@ func describeValue(v Value, depth int) string {
 		return "fmt(" + x.format + ")"
 	}
 	return fmt.Sprintf("%T", v)
+}
+
+// sameFields compares two values of static type t structurally: scalars, strings,
+// arrays, slices (by length and content; nil and empty are the same), structs field by
+// field (skipping fields named skip), pointers by pointee. Interface, func, map and
+// channel fields are not compared.
+func (ex *Exec) sameFields(a, b Value, t types.Type, skip string, depth int) *Term {
+	tt := ex.tt
+	if depth > 12 {
+		return tt.Bool(true)
+	}
+	switch u := under(t).(type) {
+	case *types.Basic:
+		return ex.equal(a, b)
+	case *types.Pointer:
+		pa, pb := a.(*Value), b.(*Value)
+		if pa == pb {
+			return tt.Bool(true)
+		}
+		if pa == nil || pb == nil {
+			return tt.Bool(false)
+		}
+		return ex.sameFields(*pa, *pb, u.Elem(), skip, depth+1)
+	case *types.Struct:
+		sa, sb := a.(Struct), b.(Struct)
+		acc := tt.Bool(true)
+		for i := 0; i < u.NumFields(); i++ {
+			if u.Field(i).Name() == skip {
+				continue
+			}
+			acc = tt.BAnd(acc, ex.sameFields(sa[i], sb[i], u.Field(i).Type(), skip, depth+1))
+		}
+		return acc
+	case *types.Array:
+		aa, ab := a.(Array), b.(Array)
+		acc := tt.Bool(true)
+		for i := range aa {
+			acc = tt.BAnd(acc, ex.sameFields(aa[i], ab[i], u.Elem(), skip, depth+1))
+		}
+		return acc
+	case *types.Slice:
+		sa, sb := a.(Slice), b.(Slice)
+		if len(sa.data) != len(sb.data) {
+			return tt.Bool(false)
+		}
+		acc := tt.Bool(true)
+		for i := range sa.data {
+			acc = tt.BAnd(acc, ex.sameFields(sa.data[i], sb.data[i], u.Elem(), skip, depth+1))
+		}
+		return acc
+	}
+	return tt.Bool(true)
 }
